@@ -344,8 +344,20 @@ func (s *ReverseSuffixSearcher) searchSpan(haystack []byte, from, knownStart int
 //   - ZERO PikeVM calls - reverse DFA confirmation is sufficient
 //   - Anti-quadratic guard: tracks minStart to avoid re-scanning already-checked regions
 func (s *ReverseSuffixSearcher) IsMatch(haystack []byte) bool {
+	return s.IsMatchWithCache(haystack, nil)
+}
+
+// IsMatchWithCache is IsMatch with the reverse DFA cache provided by the caller
+// (the pooled SearchState of the engine); with a nil cache it takes one from the
+// searcher's own pool.
+func (s *ReverseSuffixSearcher) IsMatchWithCache(haystack []byte, revCache *lazy.DFACache) bool {
 	if len(haystack) == 0 {
 		return false
+	}
+	if revCache == nil {
+		// Acquire the cache once for the entire candidate loop
+		revCache = s.revCachePool.Get().(*lazy.DFACache)
+		defer s.revCachePool.Put(revCache)
 	}
 
 	// Use prefilter to find suffix candidates
@@ -379,9 +391,7 @@ func (s *ReverseSuffixSearcher) IsMatch(haystack []byte) bool {
 		//
 		// Anti-quadratic: Use SearchReverseLimited to avoid re-scanning [0, minStart).
 		// If the limited search signals quadratic behavior, fall back to PikeVM.
-		revCache := s.revCachePool.Get().(*lazy.DFACache)
 		revResult := s.reverseDFA.SearchReverseLimited(revCache, haystack, 0, revEnd, minStart)
-		s.revCachePool.Put(revCache)
 		if revResult >= 0 {
 			// Reverse DFA confirmed: pattern matches haystack[revResult:revEnd]
 			return true
